@@ -181,6 +181,7 @@ class C19(Check):
     prop = "C19"
     level = "fault_enumeration"
     quick_budget_s = 50.0
+    quick_min_runs = 9000
     thorough_budget_s = 840.0
     batch = 100
     rule = (
